@@ -37,7 +37,7 @@ claim('C10', 'model_checking',
       '"Bounded time" is a bound on loop iterations plus a wall-clock watchdog. Multi-site mutations and streams of several hostile messages beyond the listed scenarios are not covered.',
       'DESIGN.md section 4 C10')
 
-LIMITS = {'max_incomplete_connections': 3, 'auth_timeout': 5000, 'max_message_size': 1 << 20}
+LIMITS = {'max_incomplete_connections': 3, 'auth_timeout': 5000, 'max_message_size': 1 << 20, 'max_outgoing_bytes': 20000}
 
 
 def corpus(h_name=b':1.3', b_name=b':1.1'):
@@ -88,6 +88,7 @@ class Arena(BusSession):
         self.monitor_ok = rep is not None and rep.kind == R.MT_RETURN
         for l in ('A', 'B', 'M'):
             self.take(l)
+        self.bus.h.cmd('MKFD 1')      # harness-side descriptor used by fd-carrying probes: exists before the baseline is taken
         self.base_dump = self.norm_dump()
         self.base_fds = self.bus.fdcount()
         self.rt = 0
@@ -360,6 +361,56 @@ def task_scenarios(t):
                 out.extend(vs)
                 if vs:
                     arena = Arena()
+        elif kind == 'broadcast-refusal':
+            # a subscriber the bus has to REFUSE a broadcast (its queue is over max_outgoing_bytes because it does not
+            # read, or it cannot take file descriptors) must not cost the other subscribers that broadcast
+            for variant in ('queue-full', 'no-fds'):
+                vs = []
+                arena.nh += 1
+                h = 'H%d' % arena.nh
+                arena.connect_slot(h, nofd=(variant == 'no-fds'))
+                c = arena.slots[h]
+                arena.method(h, 'AddMatch', [R.S(b"path='/x'")])            # no type= / interface=: listed ahead of typed rules
+                arena.method(h, 'AddMatch', [R.S(b"type='signal'")])
+                arena.bus.h.cmd('MKFD 1')
+                if variant == 'queue-full':
+                    arena.bus.h.cmd('SOCKBUF %d 2048 2048' % c)
+                    arena.bus.h.cmd('SRVSOCKBUF 4608')
+                    arena.bus.h.cmd('NODRAIN %d 1' % c)
+                for x in ('A', 'B', 'M'):
+                    arena.take(x)
+                lost = 0
+                for i in range(24 if variant == 'queue-full' else 3):
+                    ca = arena.slots['A']
+                    sa = arena.bus.next_serial(ca)
+                    tok = b'BC%d-' % i + b'p' * 3000
+                    if variant == 'no-fds':
+                        m = R.Msg(R.MT_SIGNAL, 1, sa, [(R.F_PATH, (b'o', b'/x')), (R.F_INTERFACE, (b's', b'x.y')), (R.F_MEMBER, (b's', b'Sig')), (R.F_UNIX_FDS, (b'u', 1))], [R.S(tok), R.H(0)])
+                        arena.send_raw('A', R.encode_message(m), [0])
+                    else:
+                        arena.send('A', R.signal(sa, '/x', 'x.y', 'Sig', [R.S(tok)]))
+                    got = [o for o in arena.take('B') if o.kind == R.MT_SIGNAL and o.body and o.body[0][1] == tok]
+                    if len(got) != 1:
+                        lost += 1
+                    arena.take('A'); arena.take('M')
+                if lost:
+                    vs.append(Violation('bystanders-not-served', 'broadcast-lost:' + variant, 'broadcast-refusal/%s: the bystander subscriber missed %d broadcasts while another subscriber could not be served' % (variant, lost), None))
+                if variant == 'queue-full':
+                    arena.bus.h.cmd('NODRAIN %d 0' % c)
+                arena.close_slot(h)
+                for x in ('A', 'B', 'M'):
+                    arena.take(x)
+                arena.round_trip(vs, 'broadcast-refusal/' + variant)
+                for x in ('A', 'B', 'M'):
+                    arena.take(x)
+                if not vs:
+                    arena.restored(vs, 'broadcast-refusal/' + variant)
+                n += 1
+                for v in vs:
+                    v.case = {'scenario': ['broadcast-refusal']}
+                out.extend(vs)
+                if vs:
+                    arena = Arena()
         elif kind == 'flood':
             h = arena.new_hostile('registered')
             c = arena.slots[h]
@@ -430,6 +481,7 @@ def build_tasks(tier):
         hseqs += list(itertools.product(range(9), repeat=3))
     for i in range(0, len(hseqs), 15):
         tasks.append((task_scenarios, ('histories', hseqs[i:i + 15])))
+    tasks.append((task_scenarios, ('broadcast-refusal',)))
     tasks.append((task_scenarios, ('storm',)))
     tasks.append((task_scenarios, ('flood', 200 if quick else 2000)))
     tasks += mut_tasks          # the scripted scenarios first, then the (much larger) mutation product
